@@ -116,7 +116,7 @@ func (rep *Report) finish() int {
 			fmt.Fprintf(os.Stderr, "  slow: %s %.1fs\n", srt[i].Obl.Name, srt[i].Dur.Seconds())
 		}
 		for _, r := range results {
-			if r.Res != r.Obl.Expect || r.Dur.Seconds() > 5 {
+			if r.Res != r.Obl.Expect || r.Dur.Seconds() > 5 || os.Getenv("GOVC_V") == "2" {
 				fmt.Fprintf(os.Stderr, "  %s: %s %.1fs %s\n", r.Obl.Name, r.Res, r.Dur.Seconds(), r.Backend)
 			}
 		}
@@ -367,6 +367,11 @@ func (rep *Report) writeReplay(f failure) string {
 	if f.ground != nil && f.ground.Tag["kind"] == "plugin-request" {
 		// the ground evaluation was itself a run of the real plugin on this request: the failing input is in hand
 		out = &ReplayOutcome{Confirmed: true, Inputs: map[string]interface{}{"request_b64": f.ground.Tag["request_b64"]}, Cmd: "/verif/bin/govc replay <this file>   # rebuilds the plugin from /repo and re-sends the CodeGeneratorRequest", Output: f.ground.Detail}
+	}
+	if f.ground != nil && f.ground.Tag["kind"] == "overlay-test" {
+		// hand-written concretiser: an in-package test of the property on the real code
+		cmd, o, bad := runOverlayTest(f.ground.Tag["pkg"], f.ground.Tag["src"])
+		out = &ReplayOutcome{Confirmed: bad, Cmd: cmd, Output: o, TestFile: f.ground.Tag["src"], Inputs: map[string]interface{}{"witness": "hand-written concretiser"}}
 	}
 	model := f.Model
 	if len(model) > 6000 {
